@@ -125,6 +125,8 @@ PROPS = {
             {"name": "c11.faults", "pkg": UTILS, "test": "TestVerifC11Faults", "shards_t": 4},
             {"name": "c11.concurrent-stress", "pkg": UTILS, "test": "TestVerifC11ConcurrentStress", "shards_t": 4, "shards_q": 2},
             {"name": "c11.sockets", "pkg": TCPCL, "test": "TestVerifC11Sockets", "shards_t": 16, "shards_q": 4, "crash_is_violation": True},
+            {"name": "c11.cut-after-ack", "pkg": TCPCL, "test": "TestVerifC11CutAfterAck", "shards_t": 16, "shards_q": 4, "crash_is_violation": True},
+            {"name": "c11.two-nodes", "pkg": ROUTING, "test": "TestVerifC11TwoNodes", "shards_t": 16, "shards_q": 8, "crash_is_violation": True},
             {"name": "c11.stage-order", "pkg": STAGES, "test": "TestVerifC11StageOrder", "shards_t": 8, "shards_q": 2},
         ],
     },
@@ -218,6 +220,7 @@ PROPS = {
             {"name": "c05.simultaneous-failures", "pkg": ROUTING, "test": "TestVerifC05SimultaneousFailures", "shards_t": 4, "shards_q": 2, "crash_is_violation": True},
             {"name": "c05.directed", "pkg": ROUTING, "test": "TestVerifC05Directed", "shards_t": 16, "shards_q": 8, "crash_is_violation": True},
             {"name": "c05.reports-in-transit", "pkg": ROUTING, "test": "TestVerifC05ReportsInTransit", "shards_t": 8, "shards_q": 4, "crash_is_violation": True},
+            {"name": "c05.two-nodes", "pkg": ROUTING, "test": "TestVerifC05TwoNodes", "shards_t": 16, "shards_q": 8, "crash_is_violation": True},
         ],
     },
     "C13": {
@@ -249,6 +252,7 @@ PROPS = {
         "assumptions": ["the report-to node is a connected peer so that reports leave immediately"],
         "units": [
             {"name": "c15.matrix", "pkg": ROUTING, "test": "TestVerifC15Matrix", "shards_t": 16, "shards_q": 8, "crash_is_violation": True},
+            {"name": "c15.two-nodes", "pkg": ROUTING, "test": "TestVerifC15TwoNodes", "shards_t": 16, "shards_q": 8, "crash_is_violation": True},
         ],
     },
     "C07": {
@@ -263,6 +267,7 @@ PROPS = {
             {"name": "c07.mux-leave", "pkg": AGENT, "test": "TestVerifC07MuxLeave", "shards_t": 8, "shards_q": 2, "crash_is_violation": True},
             {"name": "c07.node", "pkg": ROUTING, "test": "TestVerifC07Node", "shards_t": 16, "shards_q": 4, "crash_is_violation": True},
             {"name": "c07.late-registration", "pkg": ROUTING, "test": "TestVerifC07LateRegistration", "shards_t": 8, "shards_q": 4, "crash_is_violation": True},
+            {"name": "c07.two-nodes", "pkg": ROUTING, "test": "TestVerifC07TwoNodes", "shards_t": 16, "shards_q": 8, "crash_is_violation": True},
         ],
     },
     "C18": {
